@@ -75,5 +75,7 @@ func handlePanic() {
 		fmt.Println("Recovered from panic:")
 		fmt.Println(r)
 		debug.PrintStack()
+		// a panic is a failure: do not report success to the caller
+		os.Exit(2)
 	}
 }
